@@ -93,7 +93,8 @@ fn cyclic_store(next: &[u8]) -> Store {
     let n = 6usize;
     let mut recs = BTreeMap::new();
     for i in 0..n {
-        let to = format!("r{}", next.get(i).copied().unwrap_or((i as u8 + 1) % n as u8) as usize % n);
+        // (r6 is a record without any tag: a resolver may well hand out an empty record for a known id)
+        let to = format!("r{}", next.get(i).copied().unwrap_or((i as u8 + 1) % n as u8) as usize % (n + 1));
         let mut d = RDict::new();
         d.insert("id".into(), RVal::Ref(format!("r{i}"), None));
         for (k, tag) in ["a", "b", "c", "d", "siteRef", "equipRef", "spaceRef", "site", "equip", "point"].into_iter().enumerate() {
@@ -113,6 +114,7 @@ fn cyclic_store(next: &[u8]) -> Store {
         d.insert("n1".into(), RVal::num(i as f64));
         recs.insert(format!("r{i}"), d);
     }
+    recs.insert("r6".into(), RDict::new());
     Store::new(recs)
 }
 
@@ -200,7 +202,7 @@ fn check_prefixes(c: &super::c08::TCase, rec: &mut Rec) -> Verdict {
 }
 
 fn ftext(depth: u32) -> BoxedStrategy<FText> {
-    let next = || prop::collection::vec(0u8..6, 6);
+    let next = || prop::collection::vec(0u8..7, 6);
     let printed = move || bx((filter_or(depth, true), super::c04::choices()).prop_map(|(f, c)| print(&f, &c).0.into_bytes()));
     let soup = prop::collection::vec(any::<u16>(), 1..24).prop_map(|v| {
         let mut s = String::new();
@@ -396,7 +398,7 @@ fn run_ladder(ctx: &mut Ctx) {
 }
 
 pub fn run(ctx: &mut Ctx) {
-    ctx.rule("inputs: arbitrary bytes and UTF-8 strings, operator soup from the token dictionary, printed valid filters, every prefix of them, 1-3 mutations, date / timestamp literals assembled from boundary parts, ref-chasing filters (*==, relationship queries, paths over ref tags), and a paren-depth ladder 1..131072 (eight shapes - bare, spaced, and-chains, flat chains, and the nesting placed after a Str / Uri / Ref-display literal that holds brackets and quotes of its own - closed and unclosed) in child processes on the main and a 2 MiB thread stack, also through haystack_filter_parse; every filter that parses is printed and evaluated on six records whose refs (single refs and lists of refs) form generated cycles, against the empty and the real Project Haystack namespace, through a resolver with a call budget; oracle: parse returns Ok/Err, evaluation returns - no panic, fuel exhaustion, abort, confirmed hang or budget exhaustion; non-trivial: >= 2 tokens; distinct by text");
+    ctx.rule("inputs: arbitrary bytes and UTF-8 strings, operator soup from the token dictionary, printed valid filters, every prefix of them, 1-3 mutations, date / timestamp literals assembled from boundary parts, ref-chasing filters (*==, relationship queries, paths over ref tags), and a paren-depth ladder 1..131072 (eight shapes - bare, spaced, and-chains, flat chains, and the nesting placed after a Str / Uri / Ref-display literal that holds brackets and quotes of its own - closed and unclosed) in child processes on the main and a 2 MiB thread stack, also through haystack_filter_parse; every filter that parses is printed and evaluated on six records (and a seventh, empty one) whose refs (single refs and lists of refs) form generated cycles, against the empty and the real Project Haystack namespace, through a resolver with a call budget; oracle: parse returns Ok/Err, evaluation returns - no panic, fuel exhaustion, abort, confirmed hang or budget exhaustion; non-trivial: >= 2 tokens; distinct by text");
     ctx.assume("an evaluation that does not terminate must keep calling the resolver (both ref-following loops do); the budget of 20000 calls per evaluation is far above what six records allow");
     let _ = real_ns();
     run_ladder(ctx);
